@@ -957,6 +957,12 @@ func (f *Frame) typeAssert(in *ssa.TypeAssert) {
 			v = fmt.Sprintf("(%s %s)", unbox, x)
 		}
 	}
+	// a value stored in an interface with dynamic type T is a value of T (e.g. an unsigned payload is not negative)
+	if _, isIface := in.AssertedType.Underlying().(*types.Interface); !isIface {
+		if fact := e.typeFact(v, in.AssertedType, f.st); fact != "true" {
+			e.assume(f.reach, fmt.Sprintf("(=> %s %s)", ok, fact))
+		}
+	}
 	if in.CommaOk {
 		okn := e.define(f.prefix+in.Name()+".ok", "Bool", ok)
 		vn := e.define(f.prefix+in.Name()+".v", e.sortOf(in.AssertedType), fmt.Sprintf("(ite %s %s %s)", okn, v, e.zero(in.AssertedType)))
